@@ -1422,6 +1422,9 @@ class Emitter:
                 raise Untranslatable("macro " + e[1])
             if e[0] == "return":
                 return self.o_return(e)
+            if e[0] == "mcall" and e[2] == "push" and e[1][0] == "path" and len(e[1][1]) == 1 and len(e[3]) == 1:
+                var = self.v(e[1][1][0])
+                return self.o_ex(e[3][0], lambda v: f"let {var} := {var} ++ [{v}]\n{cont()}")
             if e[0] == "if" and e[3] is None:
                 if self.has_effect(e[1]):
                     raise Untranslatable("effect in a condition")
@@ -1436,6 +1439,30 @@ class Emitter:
                 val = rhs if op == "=" else ("bin", op[:-1], lhs, rhs)
                 return self.o_ex(val, lambda v: f"let {target} := {v}\n{cont()}")
             raise Untranslatable("assignment target in outcome mode")
+        if kind == "for":
+            # `for _ in <count> { … }`: a function recursive on the count, carrying the parser state and the
+            # variables the table names (`loop_vars`); the body's effects are chained as anywhere else
+            key = self.rust_text(s[2])
+            counts = self.cfg.get("for_counts", {})
+            lvars = self.cfg.get("loop_vars")
+            if key not in counts or not lvars or s[1][0] != "pwild":
+                raise Untranslatable("loop form in outcome mode")
+            idx = self.nloops
+            self.nloops += 1
+            lname = f"{self.name}_loop{idx}" if idx else f"{self.name}_loop"
+            params = self.cfg["params"]
+            pnames = [q for q, _ in params if q != "bs"]
+            vnames = [n for n, _ in lvars]
+            tup = vnames[0] if len(vnames) == 1 else "(" + ", ".join(vnames) + ")"
+            tty = lvars[0][1] if len(lvars) == 1 else "(" + " × ".join(t for _, t in lvars) + ")"
+            call = lambda n: " ".join([lname] + pnames + ["bs"] + vnames + [n])   # noqa: E731
+            body = self.o_block(s[3][1], lambda v: call("n"))
+            sig = " ".join(f"({q} : {t})" for q, t in params if q != "bs") + " (bs : Bytes) " + " ".join(f"({n} : {t})" for n, t in lvars)
+            self.aux.append(
+                f"def {lname} {sig} : Nat → Outcome ({tty} × Bytes)\n"
+                f"  | 0 => .ok ({tup}, bs)\n"
+                f"  | n + 1 =>\n{indent(body, 4)}\n")
+            return f"(({call('(' + counts[key] + ')')}).bind fun ({tup}, bs) =>\n{cont()})"
         raise Untranslatable("statement kind in outcome mode: " + kind)
 
     def loop(self, c, body, rest, k, scope):
@@ -1633,7 +1660,7 @@ def translate_outcome(name, body_text, cfg):
     if cfg.get("prelude"):
         body = cfg["prelude"] + "\n" + body
     ret = f"({cfg['ret']} × Bytes)" if stateful else cfg["ret"]
-    return f"def {name} {sig} : Outcome ({ret}) :=\n{indent(body)}\n"
+    return "\n".join(em.aux) + ("\n" if em.aux else "") + f"def {name} {sig} : Outcome ({ret}) :=\n{indent(body)}\n"
 
 
 def translate(name, body_text, cfg):
